@@ -58,6 +58,12 @@ CHECKS = {
    note="Trusted: Coq kernel, translator T3. Assumed: component flows are exact (C07) and analytic (Lie series converge); for the implicit integrators the order statement is the consistency + self-adjointness of the schedule (a symmetric consistent one-step method has even order) - the second-order conclusion for them is explored by the search, not formalised.",
    technique="Coq proof (list algebra + truncated free algebra) about schedules regenerated from source + convergence-order search",
    design="5/C06"),
+ "C01": dict(
+   cat="proof",
+   text="Coq theorems (no axioms, stdlib Q) about constructor-for-constructor models of the transitions (every `rng.uniform() < p` a Flip node, expectation taken with exact probabilities): dynamic_invariant - for every orbit (weights >= 0, any failing edges, any termination criterion, sub-tree checks on/off, divergence flags that never hit a state of positive weight), every depth limit D and end state j, the sum over all 2^(D+1)-1 starts of weight times exact transition probability equals the weight of j (proved via the exact law of a built sub-tree, the exchange of exactly min(W_L, W_R) between sibling blocks under biased progressive sampling, and start-independence of the tree law); slice_level_invariant (shared divergence threshold, every max_delta_h >= 0) and slice_integrated (integration over the slice variable); metropolis_invariant (any orbit, failing edges, n >= 1). Tie: the real transition classes are run on stub orbit systems under a scripted generator that enumerates EVERY outcome of every random draw; every leaf (branch structure, thresholds, end state, n_step, tree_depth, flags, accept_stat, integrator call count) is compared with the Coq model evaluated by vm_compute. Search: exact kernels of the implementation, invariance residual at every interior state (slice level integrated exactly), all four transition types.",
+   note="Trusted: Coq kernel; hand models tied by exhaustive leaf enumeration (bounded depth/orbit length; quick: depth 2, thorough: depth 3). Assumed (interface to C02/C03/C08): a real integrator maps a state to the next orbit point exactly invertibly and fails symmetrically; uniform draws independent with P(U<p)=clip(p); momentum refreshment invariant. The statistics clause (n_step, accept_stat) is validated by the correspondence and a call-count oracle, not stated as a theorem. Multinomial sampling with a finite max_delta_h relative to the start energy is outside the property.",
+   technique="Coq proof (induction on tree depth, expectation over decision trees) + exhaustive random-outcome enumeration correspondence + exact-kernel search",
+   design="5/C01"),
 }
 
 NOT_YET = "check not built yet in this round (design in DESIGN.md section 5); no claim is made"
